@@ -205,7 +205,7 @@ func builtinStringMatch(call FunctionCall) Value {
 	for index := range matchCount {
 		valueArray[index] = stringValue(target[result[index][0]:result[index][1]])
 	}
-	matcher.put("lastIndex", intValue(result[matchCount-1][1]), true)
+	matcher.put("lastIndex", intValue(utf16Length(target[:result[matchCount-1][1]])), true)
 	return objectValue(call.runtime.newArrayOf(valueArray))
 }
 
